@@ -262,6 +262,37 @@ func (c *ctx) shapeFacts() {
 	c.lean.WriteString("/-- file operations of `LocalStore.StoreChunk`, in source order -/\n")
 	c.emitShape("shape_local_StoreChunk", "localStoreChunkShape", sh, fd != nil)
 
+	// dedupqueue.go: leader path of GetChunk/HasChunk and the order inside markDone
+	for _, fn := range []string{"GetChunk", "HasChunk"} {
+		fd = c.funcDecl(c.files, "DedupQueue", fn)
+		sh = c.callShape(fd, [][2]string{
+			{"Queue.loadOrStore", "loadOrStore"}, {"req.wait", "wait"}, {"q.store." + fn, "upstream"}, {"req.markDone", "markDone"}, {"Queue.delete", "delete"}})
+		c.lean.WriteString("/-- `DedupQueue." + fn + "`: calls in source order -/\n")
+		c.emitShape("shape_dedup_"+fn, "dedup"+fn+"Shape", sh, fd != nil)
+	}
+	fd = c.funcDecl(c.files, "WriteDedupQueue", "StoreChunk")
+	sh = c.callShape(fd, [][2]string{
+		{"Queue.loadOrStore", "loadOrStore"}, {"req.wait", "wait"}, {"q.S.StoreChunk", "upstream"}, {"req.markDone", "markDone"}, {"Queue.delete", "delete"}})
+	c.lean.WriteString("/-- `WriteDedupQueue.StoreChunk`: calls in source order -/\n")
+	c.emitShape("shape_dedup_StoreChunk", "dedupStoreChunkShape", sh, fd != nil)
+	md := []string{}
+	if fd = c.funcDecl(c.files, "request", "markDone"); fd != nil {
+		for _, st := range fd.Body.List {
+			switch t := st.(type) {
+			case *ast.AssignStmt:
+				if len(t.Lhs) == 1 {
+					md = append(md, strings.TrimPrefix(exprString(t.Lhs[0]), "r."))
+				}
+			case *ast.ExprStmt:
+				if call, ok := t.X.(*ast.CallExpr); ok && exprString(call.Fun) == "close" {
+					md = append(md, "close")
+				}
+			}
+		}
+	}
+	c.lean.WriteString("/-- `request.markDone`: the result is published before `done` is closed -/\n")
+	c.emitShape("shape_dedup_markDone", "dedupMarkDoneShape", md, fd != nil)
+
 	// chunkstorage.go StoreChunk
 	fd = c.funcDecl(c.files, "ChunkStorage", "StoreChunk")
 	sh = c.callShape(fd, [][2]string{
